@@ -1028,6 +1028,28 @@ class Session:
                 rt.sm.bind_events_to(rt.model)
         return None
 
+    def op_copy(self):
+        """the machine is replaced by a `copy.deepcopy` of itself (with its model and listeners): for the engine
+        that is a re-construction over the stored state (`__setstate__` builds and starts a fresh engine)"""
+        import copy
+        rt, scn = self.rt, self.scn
+        if getattr(rt.model, scn.state_field, None) is None:
+            rt.initial_tid = rt.next_tid
+            rt.next_tid += 1
+        memo = {}
+        old = rt.sm
+        clone = copy.deepcopy(old, memo)
+        rt.sm = clone
+        rt.model = clone.model
+        for p, obj in list(self.listeners.items()):
+            if id(obj) in memo:
+                self.listeners[p] = memo[id(obj)]
+        rt.bound = type("Bound", (), {})()
+        with warnings.catch_warnings():
+            warnings.simplefilter("ignore")
+            clone.bind_events_to(rt.bound)
+        return None
+
     def ev_name(self, e):
         if e < len(EVENTS):
             return EVENTS[e]
@@ -1071,6 +1093,8 @@ class Session:
         rt = self.rt
         self.cur_tid = "-"
         rt.cur_op = i
+        if op[0] == "reconstruct" and len(op) > 1 and op[1] == "copy" and getattr(rt, "sm", None) is not None:
+            return "R", self.op_copy()
         if op[0] in ("construct", "reconstruct"):
             return "R", self.op_construct()
         if op[0] == "send":
